@@ -97,6 +97,12 @@ DlVal(m, k) == IF m.pend[k] # <<>> THEN (IF m.pend[k][1].dl = 0 THEN m.pend[k][1
 DlLater(m, k) == IF m.pend[k] # <<>> THEN (IF m.pend[k][1].dl = 0 THEN <<>> ELSE <<[x |-> m.pend[k][1].x, n |-> m.pend[k][1].dl]>>)
                  ELSE IF m.later[k] = <<>> \/ m.later[k][1].n = 1 THEN <<>> ELSE <<[m.later[k][1] EXCEPT !.n = @ - 1]>>
 
+\* ... or one callback earlier: a delay that runs out exactly at the end of an update may be honoured by that update (C06 grants
+\* tweens "one update of timing"); the observation tells which, and the monitor follows it
+DlEarly(m, k) == IF m.pend[k] # <<>> THEN (IF m.pend[k][1].dl <= 1 THEN m.pend[k][1].x ELSE m.val[k])
+                 ELSE IF m.later[k] # <<>> /\ m.later[k][1].n <= 2 THEN m.later[k][1].x ELSE m.val[k]
+TookEarly(m, e, k) == IsDl(k) /\ "obs" \in DOMAIN e /\ DlEarly(m, k) # DlVal(m, k) /\ e.obs[k] = DlEarly(m, k)
+
 Expected(m, e, k) ==
   IF IsDl(k) THEN DlVal(m, k)
   ELSE IF e.jump[k] = "no" THEN (IF m.pend[k] = <<>> THEN m.val[k] ELSE m.pend[k][1])
@@ -108,6 +114,7 @@ Expected(m, e, k) ==
 Wrong(m, e) ==
   { k \in DOMAIN m.val :
       IF IsSj(k) THEN SjBad(m, e, k) # ""
+      ELSE IF IsDl(k) THEN e.obs[k] \notin {DlVal(m, k), DlEarly(m, k)}
       ELSE IF e.jump[k] = "no" THEN e.obs[k] # Expected(m, e, k)
       ELSE e.obs[k] - Expected(m, e, k) > 1 \/ Expected(m, e, k) - e.obs[k] > 4 }
 
@@ -128,9 +135,10 @@ HUpd(m, e) ==
   CASE e.a = "w" -> IF IsSj(e.key) THEN [m EXCEPT !.pend[e.key] = Append(@, [x |-> e.v.x, age |-> 0])]
                     ELSE [m EXCEPT !.pend[e.key] = <<e.v>>]
     [] e.a = "cb" -> [m EXCEPT !.val = [k \in DOMAIN m.val |->
-                                         IF IsDl(k) THEN DlVal(m, k)
+                                         IF TookEarly(m, e, k) THEN DlEarly(m, k)
+                                         ELSE IF IsDl(k) THEN DlVal(m, k)
                                          ELSE IF IsSj(k) \/ m.pend[k] = <<>> \/ e.jump[k] # "no" THEN m.val[k] ELSE m.pend[k][1]],
-                               !.later = [k \in DOMAIN m.val |-> IF IsDl(k) THEN DlLater(m, k) ELSE <<>>],
+                               !.later = [k \in DOMAIN m.val |-> IF TookEarly(m, e, k) THEN <<>> ELSE IF IsDl(k) THEN DlLater(m, k) ELSE <<>>],
                                !.pend = [k \in DOMAIN m.val |-> IF IsSj(k) THEN SjPend(m, e, k) ELSE <<>>]]
     [] OTHER -> m
 =============================================================================
